@@ -10,6 +10,7 @@ import (
 	"fmt"
 	"io"
 	"math/rand"
+	"testing/iotest"
 
 	"github.com/golang/protobuf/proto"
 	"github.com/itchio/savior/seeksource"
@@ -49,12 +50,14 @@ type ovTrace struct {
 	NewLen  int     `json:"newlen"`
 	Acts    []ovAct `json:"acts"`
 	Ops     []ovOp  `json:"ops"`
-	Done    bool    `json:"done"`   // the stream ends with the end marker
+	Done    bool    `json:"done"`    // the stream ends with the end marker
 	PatchOK bool    `json:"patchok"` // real Patch returned nil
 	OutLen  int64   `json:"outlen"`
 	OutSha  string  `json:"outsha"`
 	NewSha  string  `json:"newsha"`
 	Desc    string  `json:"desc"`
+	// ShortOld: the old file was delivered to the writer in short reads / with its last bytes together with io.EOF
+	ShortOld bool `json:"shortold"`
 }
 
 // sliceWriter writes into *buf at an offset (overwriting stale bytes, extending as needed).
@@ -246,13 +249,18 @@ func cmdC14(args []string) error {
 		rng := newRand(int64(14000 + k))
 		runs, oldExtra, desc := genRelation(rng, k, W, T)
 		old, new := materialise(rng, runs, oldExtra)
-		tr := ovTrace{Case: k, W: W, T: T, Runs: runs, OldLen: len(old), NewLen: len(new), Acts: []ovAct{}, Ops: []ovOp{}, Desc: desc, NewSha: sha(new)}
+		tr := ovTrace{Case: k, W: W, T: T, Runs: runs, OldLen: len(old), NewLen: len(new), Acts: []ovAct{}, Ops: []ovOp{}, Desc: desc, NewSha: sha(new), ShortOld: k%4 == 3}
 
 		var ov []byte // the overlay "file"
 		var cpRo, cpOo int64
 		newSession := func() (overlay.OverlayWriter, error) {
-			r := bytes.NewReader(old)
-			r.Seek(cpRo, io.SeekStart)
+			br := bytes.NewReader(old)
+			br.Seek(cpRo, io.SeekStart)
+			var r io.Reader = br
+			// the old file may be delivered in short reads and with its last bytes together with io.EOF
+			if k%4 == 3 {
+				r = iotest.DataErrReader(&chunkReader{r: br, n: 1 + (k*7919)%(W+W/2)})
+			}
 			return overlay.NewOverlayWriter(r, cpRo, &sliceWriter{buf: &ov, off: int(cpOo)}, cpOo)
 		}
 		ow, err := newSession()
